@@ -53,17 +53,21 @@ Qed.
 
 Definition print_state : SyltSem.state := SyltSem.mkState [SyltSem.SExt "print"] [] [] [].
 
-Lemma run_frag_eq r pv sv kd t sp gs nm kd' t' fname ret body pure fsp dsp f' :
-  r_stmts r = SExternalDefinition "print" pv kd t sp :: gs ++ [SDefinition nm sv kd' t' (EFunction fname [] ret body pure fsp) dsp] ->
-  IR.find_start (Resolved.r_vars r) = Some sv ->
-  SyltSem.run (S (S f')) r =
-  match SyltSem.run_outer (S (S f')) [(pv, 0%nat)] gs print_state with
+(* the run of a program: print, the outer definitions, then the call of start *)
+Lemma run_items_eq n r pv kd t sp items s :
+  r_stmts r = SExternalDefinition "print" pv kd t sp :: items ->
+  IR.find_start (Resolved.r_vars r) = Some s ->
+  SyltSem.run n r =
+  match SyltSem.run_outer n [(pv, 0%nat)] items print_state with
   | (SyltSem.RVal eg, stg) =>
-      match SyltSem.block_value (S f') (start_env sv eg stg) body (start_state sv body eg stg) with
-      | (SyltSem.RVal _, st) => SyltSem.mkRun (rev (SyltSem.trace st)) SyltSem.ODone
-      | (SyltSem.RAbrupt (SyltSem.CReturn _), st) => SyltSem.mkRun (rev (SyltSem.trace st)) SyltSem.ODone
-      | (SyltSem.RStop o, st) => SyltSem.mkRun (rev (SyltSem.trace st)) o
-      | (SyltSem.RAbrupt _, st) => SyltSem.mkRun (rev (SyltSem.trace st)) (SyltSem.OStuck "break/continue outside a loop")
+      match SyltSem.lookup eg s with
+      | None => SyltSem.mkRun (rev (SyltSem.trace stg)) (SyltSem.OStuck "no start")
+      | Some c =>
+          match SyltSem.bind (SyltSem.read_cell c) (fun fv => SyltSem.apply n fv []) stg with
+          | (SyltSem.RVal _, st) => SyltSem.mkRun (rev (SyltSem.trace st)) SyltSem.ODone
+          | (SyltSem.RStop o, st) => SyltSem.mkRun (rev (SyltSem.trace st)) o
+          | (SyltSem.RAbrupt _, st) => SyltSem.mkRun (rev (SyltSem.trace st)) (SyltSem.OStuck "ret/break/continue at top level")
+          end
       end
   | (SyltSem.RStop o, stg) => SyltSem.mkRun (rev (SyltSem.trace stg)) o
   | (SyltSem.RAbrupt _, stg) => SyltSem.mkRun (rev (SyltSem.trace stg)) (SyltSem.OStuck "ret/break/continue at top level")
@@ -72,47 +76,28 @@ Proof.
   intros Hstmts Hstart. unfold SyltSem.run. rewrite Hstmts.
   change (SyltSem.find_start (Resolved.r_vars r)) with (IR.find_start (Resolved.r_vars r)). rewrite Hstart.
   unfold SyltSem.bind at 1.
-  change (SyltSem.run_outer (S (S f')) [] (SExternalDefinition "print" pv kd t sp :: gs ++ [SDefinition nm sv kd' t' (EFunction fname [] ret body pure fsp) dsp]) (SyltSem.mkState [] [] [] []))
-    with (SyltSem.run_outer (S (S f')) [(pv, 0%nat)] (gs ++ [SDefinition nm sv kd' t' (EFunction fname [] ret body pure fsp) dsp]) print_state).
-  rewrite run_outer_app.
-  destruct (SyltSem.run_outer (S (S f')) [(pv, 0%nat)] gs print_state) as [[eg|o|c] stg]; [|reflexivity|reflexivity].
-  assert (Hdef : SyltSem.run_outer (S (S f')) eg [SDefinition nm sv kd' t' (EFunction fname [] ret body pure fsp) dsp] stg
-                 = (SyltSem.RVal (start_env sv eg stg), start_state sv body eg stg)).
-  { cbn [SyltSem.run_outer]. unfold SyltSem.bind at 1. rewrite exec_def_fun. reflexivity. }
-  rewrite Hdef. unfold start_env, def_env at 1. cbn [SyltSem.lookup]. rewrite N.eqb_refl.
-  unfold SyltSem.bind at 1. unfold SyltSem.read_cell. unfold start_state, def_state at 1. cbn [SyltSem.cells]. rewrite nth_error_last.
-  cbn [SyltSem.apply]. unfold SyltSem.bind at 1. unfold SyltSem.get_clos. unfold start_state, def_state at 1. cbn [SyltSem.clos]. rewrite nth_error_last.
-  cbn [SyltSem.cl_params length Nat.eqb SyltSem.mapM]. unfold SyltSem.bind at 1. cbn [SyltSem.ret combine app SyltSem.cl_env SyltSem.cl_body].
-  fold (def_state sv [] body eg stg). fold (start_state sv body eg stg). fold (def_env sv eg stg). fold (start_env sv eg stg).
-  destruct (SyltSem.block_value (S f') (start_env sv eg stg) body (start_state sv body eg stg)) as [[v|o|[| |v]] st]; reflexivity.
+  change (SyltSem.run_outer n [] (SExternalDefinition "print" pv kd t sp :: items) (SyltSem.mkState [] [] [] []))
+    with (SyltSem.run_outer n [(pv, 0%nat)] items print_state).
+  destruct (SyltSem.run_outer n [(pv, 0%nat)] items print_state) as [[eg|o|c] stg]; [|reflexivity|reflexivity].
+  destruct (SyltSem.lookup eg s) as [c|]; reflexivity.
 Qed.
 
 (* with fuel 1 nothing gets past the first definition *)
-Lemma run_outer_fuel1 : forall gs e st r st', forallb is_def gs = true ->
-  SyltSem.run_outer 1 e gs st = (r, st') ->
-  match r with SyltSem.RVal _ => True | SyltSem.RStop o => o = SyltSem.OFuel | SyltSem.RAbrupt _ => False end.
+Lemma run_outer_fuel1 : forall gs e st, forallb is_def gs = true -> gs <> [] ->
+  exists st', SyltSem.run_outer 1 e gs st = (SyltSem.RStop SyltSem.OFuel, st').
 Proof.
-  induction gs as [|s gs IH]; intros e st r st' Hp H.
-  - cbn in H. inversion H; subst. exact I.
-  - cbn [forallb] in Hp. apply andb_prop in Hp as [Hs Hp]. destruct s; try discriminate Hs.
-    cbn in H. inversion H; subst. reflexivity.
+  intros [|s gs] e st Hp Hne; [contradiction|].
+  cbn [forallb] in Hp. apply andb_prop in Hp as [Hs Hp]. destruct s; try discriminate Hs.
+  eexists. cbn. reflexivity.
 Qed.
 
-Lemma run_fuel1 r pv sv kd t sp gs nm kd' t' fname ret body pure fsp dsp :
-  r_stmts r = SExternalDefinition "print" pv kd t sp :: gs ++ [SDefinition nm sv kd' t' (EFunction fname [] ret body pure fsp) dsp] ->
-  IR.find_start (Resolved.r_vars r) = Some sv -> forallb is_def gs = true ->
+Lemma run_fuel1 r pv kd t sp items s :
+  r_stmts r = SExternalDefinition "print" pv kd t sp :: items ->
+  IR.find_start (Resolved.r_vars r) = Some s -> forallb is_def items = true -> items <> [] ->
   SyltSem.r_final (SyltSem.run 1 r) = SyltSem.OFuel.
 Proof.
-  intros Hstmts Hstart Hp. unfold SyltSem.run. rewrite Hstmts.
-  change (SyltSem.find_start (Resolved.r_vars r)) with (IR.find_start (Resolved.r_vars r)). rewrite Hstart.
-  unfold SyltSem.bind at 1.
-  change (SyltSem.run_outer 1 [] (SExternalDefinition "print" pv kd t sp :: gs ++ [SDefinition nm sv kd' t' (EFunction fname [] ret body pure fsp) dsp]) (SyltSem.mkState [] [] [] []))
-    with (SyltSem.run_outer 1 [(pv, 0%nat)] (gs ++ [SDefinition nm sv kd' t' (EFunction fname [] ret body pure fsp) dsp]) print_state).
-  rewrite run_outer_app.
-  destruct (SyltSem.run_outer 1 [(pv, 0%nat)] gs print_state) as [[eg|o|c] stg] eqn:Hg; apply run_outer_fuel1 in Hg; try exact Hp.
-  - reflexivity.
-  - subst o. reflexivity.
-  - destruct Hg.
+  intros Hstmts Hstart Hp Hne. rewrite (run_items_eq 1 r pv kd t sp items s Hstmts Hstart).
+  destruct (run_outer_fuel1 items [(pv, 0%nat)] print_state Hp Hne) as [st' ->]. reflexivity.
 Qed.
 
 (* the outer statements never stop with ODone either *)
